@@ -587,17 +587,15 @@ where
         };
 
         if req.claimed {
-            match req.end {
-                ChannelEnd::Sender => {
-                    let contained = self.senders.remove(&req.cookie);
-                    debug_assert!(contained.is_some());
-                }
+            // The end is only tracked if claiming it has succeeded. A claim that was cancelled and
+            // then rejected by the broker leaves nothing behind. The broker refuses to close such
+            // an end.
+            let contained = match req.end {
+                ChannelEnd::Sender => self.senders.remove(&req.cookie).is_some(),
+                ChannelEnd::Receiver => self.receivers.remove(&req.cookie).is_some(),
+            };
 
-                ChannelEnd::Receiver => {
-                    let contained = self.receivers.remove(&req.cookie);
-                    debug_assert!(contained.is_some());
-                }
-            }
+            debug_assert!(contained || (msg.result != CloseChannelEndResult::Ok));
         }
 
         let res = match msg.result {
